@@ -118,6 +118,9 @@ type Check struct {
 	Assume  []string
 	Units   func(ctx *Ctx) []Unit
 	Workers int // 0 = default
+	// UnitTimeout > 0: a unit that does not finish within this time is reported as a violation of the
+	// property's termination clause (the worker is killed). Used only by properties that state termination.
+	UnitTimeout time.Duration
 }
 
 var registry = map[string]*Check{}
@@ -296,7 +299,25 @@ func MasterMain(c *Check, ctx *Ctx, verifDir string, unitFilter string) int {
 				next++
 				mu.Unlock()
 				fmt.Fprintf(stdin, "%d\n", idx)
+				var timer *time.Timer
+				timedOut := false
+				if c.UnitTimeout > 0 {
+					timer = time.AfterFunc(c.UnitTimeout, func() { timedOut = true; cmd.Process.Kill() })
+				}
 				line, err := rd.ReadBytes('\n')
+				if timer != nil {
+					timer.Stop()
+				}
+				if err != nil && timedOut {
+					cmd.Wait()
+					mu.Lock()
+					results[idx] = &Result{Unit: units[idx].Name, NViol: 1, Violations: []Violation{{Property: c.ID, Unit: units[idx].Name,
+						Check: strings.ToLower(c.ID) + ".termination", API: "see unit", Input: "unit " + units[idx].Name, Expected: fmt.Sprintf("the unit finishes (normally seconds); generous limit %s", c.UnitTimeout), Got: "still running: a call blocks forever (or diverges)"}}}
+					crashed = true
+					anyCrash = true
+					mu.Unlock()
+					break
+				}
 				if err != nil {
 					cmd.Wait()
 					es := errBuf.String()
